@@ -429,6 +429,7 @@ func runC15(c *Ctx) {
 			key := funcKey(wp, fd) + "|walk-skips-directories"
 			fl, ok := call.Args[len(call.Args)-1].(*ast.FuncLit)
 			good := false
+			earlyWhy := ""
 			if ok {
 				ast.Inspect(fl.Body, func(m ast.Node) bool {
 					is, ok := m.(*ast.IfStmt)
@@ -447,6 +448,23 @@ func runC15(c *Ctx) {
 					if hasSkip && len(is.Body.List) == 1 {
 						if ret, ok := is.Body.List[0].(*ast.ReturnStmt); ok && len(ret.Results) == 1 && strings.HasSuffix(types.ExprString(ret.Results[0]), "SkipDir") {
 							good = true
+							// nothing that can hold for a to-be-skipped directory may return before the skip test:
+							// earlier returns are allowed only under `err != nil` or `!<entry>.IsDir()`
+							for _, st := range fl.Body.List {
+								if st.Pos() >= is.Pos() {
+									break
+								}
+								eis, ok := st.(*ast.IfStmt)
+								if !ok || !containsReturn(eis) {
+									continue
+								}
+								cond := types.ExprString(eis.Cond)
+								if isErrNil(eis.Cond) || (strings.HasPrefix(cond, "!") && strings.HasSuffix(cond, ".IsDir()")) {
+									continue
+								}
+								good = false
+								earlyWhy = "the callback returns under `" + cond + "` before the skip test, so a directory that should be skipped is entered"
+							}
 						}
 					}
 					return true
@@ -454,7 +472,7 @@ func runC15(c *Ctx) {
 				// the skip test must apply to directories: either guarded by IsDir in the same condition or after a `!IsDir → return nil`
 			}
 			c.check(good, "C15.R5", key, c.pos(call.Pos()), "the walk returns SkipDir when skipdir.ShouldSkip says so",
-				fd.Name.Name+": the directory walk does not consult skipdir.ShouldSkip / return SkipDir: files under vendor, node_modules, dot- and underscore-directories would be generated or watched")
+				fd.Name.Name+": the directory walk does not consult skipdir.ShouldSkip / return SkipDir before anything else can return: files under vendor, node_modules, dot- and underscore-directories would be generated, deleted or watched. "+earlyWhy)
 			return true
 		})
 	}
